@@ -1,5 +1,5 @@
 import Gql.Text.Lexer
-import Gql.Text.StripBlock
+import Gql.Text.BlockString
 /-!
 Model of `graphql.utilities.strip_ignored_characters` (strip_ignored_characters.py:74-100) and of
 the token counter of `Parser.advance_lexer` (parser.py:1400-1412).
